@@ -50,8 +50,10 @@ class C02(DiffProperty):
                   "handed to the handler is a prefix of the messages completed on the writer side as told by the return values of mpt_stream_push). "
                   "Tied to the code by differential execution of the same ring-level model (state compared after every operation) on rings of many capacities/offsets "
                   "with arbitrary wire cuts incl. single-byte delivery, decided against the specification 'received = sent'")
-    level_note = ("partial: (1) liveness of the stream glue (a drain delivers everything) is decided against the specification only; it is proved for the ring-level reader "
-                  "protocol 'receive, enlarge by what is missing, receive' (C02_ring_round_delivers), whereas mpt_stream_dispatch enlarges in steps of 64 bytes per call; "
+    level_note = ("partial: (1) liveness is proved for the reader side incl. the growth policy of mpt_stream_dispatch (C02_ring_dispatch_policy_delivers: receive / enlarge by 64 / "
+                  "receive, iterated: every failed attempt consumes at least 47 bytes of the frame, a complete frame whose delimiter is L bytes ahead is delivered within L/47+1 "
+                  "attempts; C02_ring_round_progress for any enlargement), but not for whole glue histories: that a drain moves every finished byte through the kernel oracle "
+                  "and delivers everything is decided against the specification only; "
                   "(2) not modelled: poll() paths with a timeout, POLLOUT handling, memory-mapped and text-mode "
                   "streams. The glue model is tied to the code by differential execution with scripted transfers (three defects were found in the glue and repaired). "
                   "Theorems closed under the global context.")
